@@ -12,6 +12,11 @@ use proptest::strategy::BoxedStrategy;
 use serde::{Deserialize, Serialize};
 use std::panic::{catch_unwind, AssertUnwindSafe};
 
+/// results are compared exactly, except Debug text (its format is not part of any property)
+fn same_out(a: &Out, b: &Out) -> bool {
+    matches!((a, b), (Out::Text(_), Out::Text(_))) || a == b
+}
+
 fn vio(prop: &'static str, step: usize, kind: Kind, op: &Op, class: &str, msg: String) -> Violation {
     Violation { prop, step, msg, sig: sig(kind, op, class) }
 }
@@ -166,7 +171,7 @@ pub fn run_c13<K: KeyLike>(t: &C13Case) -> CaseReport {
         }
         let ra = guarded!(rep, a.apply(op, i));
         let rb = guarded!(rep, b.apply(op, i));
-        if ra != rb {
+        if !same_out(&ra, &rb) {
             rep.violation = Some(vio(p, i, kind, op, "later-result-differs", format!("step {i} {op:?}: result {:?} in the plain history, {:?} in the history with read-only calls inserted ({:?})", ra, rb, t.ins)));
             return rep;
         }
@@ -288,7 +293,7 @@ pub fn run_c16<K: KeyLike>(t: &C16Case) -> CaseReport {
         if before.all().any(|e| xa.find(e.0).is_none()) {
             evicted_in_suffix = true;
         }
-        if ra != rb || xa != xb {
+        if !same_out(&ra, &rb) || xa != xb {
             rep.violation = Some(vio(p, step, kind, op, "lockstep-differs", format!("lock-step {op:?} after the clone: original -> {:?} state {:?} p={}, clone -> {:?} state {:?} p={}", ra, xa.lists, xa.p, rb, xb.lists, xb.p)));
             return rep;
         }
@@ -447,7 +452,7 @@ pub fn run_c17<K: KeyLike>(case: &Case) -> CaseReport {
                 if kind == Kind::Wtl && case.cfg.sketch_seed.is_none() {
                     v.est = v0.est.clone();
                 }
-                if &r != r0 || &v != v0 {
+                if !same_out(&r, r0) || &v != v0 {
                     rep.violation = Some(vio(
                         p,
                         i,
